@@ -60,6 +60,7 @@ func main() {
 	switch *mode {
 	case "C01":
 		c.roundTrip(all, n)
+		c.roundTrip(c.accepted("huge"), 1) // fields at offsets beyond 65535 (U2 kept field offsets in 16 bits)
 	case "C02":
 		c.encodeSide(c.accepted("maps", "lists", "scalars", "byvalue", "recursive", "spellings", "random", "leaf", "ids", "wide", "defaults", "anon"), n, false)
 	case "C03":
